@@ -113,4 +113,27 @@ def modelRunW (d : DCtx) (gran lg : Nat) (turn : Bool) : Nat → List (List WArg
       | none => none
       | some (r, pcEnd) => some (cellsAt (pc * gran) (dataBytes d.mask gran lg turn cells) ++ r, pcEnd)
 
+/-! ## hypotheses of the whole-slot theorems (`Props/C09_Data.lean`), decidable: the driver evaluates them on every case -/
+
+/-- the configurations of `DecodeDATA` the theorems speak about: (ValIntType, word width, packing rule of the manual,
+integer arguments restricted to non-negative values) -/
+def dataCfgs : List (Nat × Nat × Packing × Bool) :=
+  [(Generated.itInt16, 16, .twoPerWord, false), (Generated.itInt8, 8, .perWord, false), (Generated.itInt14, 14, .perWord, false),
+   (Generated.itInt12, 12, .perWord, false), (Generated.itInt10, 10, .perWord, false), (Generated.itInt4, 4, .twoLocations, false),
+   (Generated.itUInt16, 16, .twoPerWord, true)]
+
+/-- whether `WriteBytes` turns the bytes of each word -/
+def swapOf (lg : Nat) (turn : Bool) : Bool := decide (turn ≠ Generated.hostBigEndian ∧ lg = 2)
+
+/-- arguments the theorems are stated for (`ArgOK` of `Lemmas/DataWord.lean` as a Boolean) -/
+def argOKb (w : Nat) (nonneg : Bool) : WArg → Bool
+  | .int v => decide (-(2 : Int) ^ 63 ≤ v ∧ v < (2 : Int) ^ 63 ∧ (nonneg = true → 0 ≤ v))
+  | .chr cs => decide (1 ≤ cs.length ∧ ¬ (w / 8 < cs.length ∧ cs.length ≤ (w + 7) / 8))
+  | _ => true
+
+/-- the case is inside the domain of `C09_data_slot_model_eq_spec` / `C09_data_slot_bytes_model_eq_spec` -/
+def dataSlotOKb (typ w : Nat) (pk : Packing) (tableLen gran lg : Nat) (turn : Bool) (stmts : List (List WArg)) : Bool :=
+  dataCfgs.any (fun q => q.1 == typ && q.2.1 == w && decide (q.2.2.1 = pk) && stmts.all (fun st => st.all (argOKb w q.2.2.2))) &&
+  tableLen == 256 && ((decide (8 < w) && gran == 2) || (decide (w ≤ 8) && gran == 1 && !swapOf lg turn))
+
 end AslModel.DataWModel
